@@ -12,4 +12,10 @@ Example C02_example :
              = [(PDone, 1, 1, 1)].
 Proof. vm_compute. repeat split; reflexivity. Qed.
 
+(** Monitor soundness: the extracted monitor for C02 (all four clauses) never rejects a stream of the model. *)
+From TP Require PMonSound_C02 PObs PMon.
+Theorem mon_sound : forall c tr, clean (run c tr) -> PMon.ok_C02 c (PObs.observe c tr) = true.
+Proof. exact PMonSound_C02.mon_C02_sound. Qed.
+
 Print Assumptions C02.
+Print Assumptions mon_sound.
